@@ -1,5 +1,5 @@
 ---- MODULE MCUniverse ----
-(* Generated once (see harness/accept.py, universe()): the bounded universe of the C17 model as code
+(* Generated once (harness/accept.py, universe_module()): the bounded universe of the C17 model as code
    point sequences.  Ranges carry their intended parse (main, params), q texts their intended meaning
    (thousandths, -1 = the item is ignored): the parser of Accept.tla is checked against these. *)
 EXTENDS Naturals, Sequences
